@@ -1214,6 +1214,27 @@ func c09RandomWorld(rng *rand.Rand) (c09WorldIn, int) {
 		Sigs: sigs(vset, all(vset), nil), Last: "R" + strconv.Itoa(vh-1), Wf: false}
 	in.Blocks["G"] = c09Block{ID: "G", Hid: "G", H: int64(vh), T: int64(10*vh - 1), Vh: "X", Nvh: "X", Vsh: "X",
 		Sigs: sigs(in.VSets["X"], all(in.VSets["X"]), nil), Last: "R" + strconv.Itoa(vh-1), Wf: true}
+	// a forged header at the top height that PASSES light verification from height 1: its set
+	// is the strongest validators of the first set holding more than 1/3 of its power
+	{
+		first := in.VSets[setAt[1]]
+		var tot, acc int64
+		for _, v := range first {
+			tot += v.P
+		}
+		members, powers := []string{}, []int64{}
+		for _, v := range first {
+			if acc*3 > tot {
+				break
+			}
+			members = append(members, v.V)
+			powers = append(powers, v.P)
+			acc += v.P
+		}
+		mkset("Ks", members, powers)
+		in.Blocks["K"] = c09Block{ID: "K", Hid: "K", H: int64(H), T: int64(10*H + 4), Vh: "Ks", Nvh: "Ks", Vsh: "Ks",
+			Sigs: sigs(in.VSets["Ks"], all(in.VSets["Ks"]), nil), Last: "R" + strconv.Itoa(H-1), Wf: true}
+	}
 	// a forged header at the top height whose only validator (v9) is in no set of the chain:
 	// it can never reach the trust level of any trusted set
 	mkset("Zs", []string{"v9"}, []int64{1})
@@ -1361,6 +1382,34 @@ func c09RandomRun(rng *rand.Rand, in c09WorldIn, H int) c09Run {
 	}
 	if rng.Intn(5) == 0 {
 		r.Cfg.Num, r.Cfg.Den = 2, 3
+	}
+	// several witnesses return the SAME genuine header against a forged one of the primary, with
+	// different abilities to back it: a relay (has only that height), an honest full node, and
+	// (with three witnesses) an accomplice returning the primary's forged header
+	if !holeTarget && nw >= 2 && H >= 3 && rng.Intn(6) == 0 {
+		root = 1
+		holeTarget = true // same forced top-height call below
+		pt := honest()
+		pt[H] = []string{"K"}
+		pt[0] = []string{"K"}
+		r.Prov["p"] = pt
+		relay := make([][]string, H+1)
+		for h := 0; h <= H; h++ {
+			relay[h] = []string{"NotFound"}
+		}
+		relay[H] = []string{"R" + strconv.Itoa(H)}
+		relay[0] = relay[H]
+		roles := [][][]string{relay, honest()}
+		if nw == 3 {
+			acc := make([][]string, H+1)
+			copy(acc, pt)
+			roles = append(roles, acc)
+		}
+		rng.Shuffle(len(roles), func(i, j int) { roles[i], roles[j] = roles[j], roles[i] })
+		for i, n := range r.Wits {
+			r.Prov[n] = roles[i]
+		}
+		r.Cfg.Num, r.Cfg.Den = 1, 3
 	}
 	r.Root = int64(root)
 	if holeTarget {
